@@ -249,6 +249,51 @@ def lock_proto(repo, res):
             it = ast.unparse(lp.iter)
             if "timeout" not in sl.names(lp.iter):
                 res.fail(k, f"wait loop bound `{it}` does not derive from the `timeout` argument", m.line(lp))
+    # the total wait is at least the requested timeout: iterations x sleep, evaluated for sample timeouts
+    k = f"{gcm.key}:wait-duration"
+    res.ob(k)
+    for lp in wait_loops:
+        if not isinstance(lp, ast.For) or not (isinstance(lp.iter, ast.Call) and call_name(lp.iter) == "range"):
+            continue
+        sleeps = [c for c in calls_in(lp) if (call_name(c) or "").endswith("sleep") and c.args]
+        if len(sleeps) != 1:
+            res.fail(k, "the polling loop does not sleep exactly once per iteration", m.line(lp))
+            continue
+
+        def num(e, t):
+            if isinstance(e, ast.Constant) and isinstance(e.value, (int, float)):
+                return e.value
+            if isinstance(e, ast.Name) and e.id == "timeout":
+                return t
+            if isinstance(e, ast.BinOp):
+                a, b = num(e.left, t), num(e.right, t)
+                if isinstance(e.op, ast.Mult):
+                    return a * b
+                if isinstance(e.op, ast.Div):
+                    return a / b
+                if isinstance(e.op, ast.FloorDiv):
+                    return a // b
+                if isinstance(e.op, ast.Add):
+                    return a + b
+                if isinstance(e.op, ast.Sub):
+                    return a - b
+            if isinstance(e, ast.Call) and call_name(e) in ("int", "round", "math.ceil", "ceil") and e.args:
+                import math
+
+                v = num(e.args[0], t)
+                return {"int": int, "round": round, "math.ceil": math.ceil, "ceil": math.ceil}[call_name(e)](v)
+            if isinstance(e, ast.Call) and call_name(e) == "max" and e.args:
+                return max(num(a, t) for a in e.args)
+            raise AnalysisError(f"get_cached_module: cannot evaluate `{ast.unparse(e)}` in the wait loop")
+
+        rargs = lp.iter.args
+        for t in (10, 30, 7):
+            n_it = num(rargs[0], t) if len(rargs) == 1 else (num(rargs[1], t) - num(rargs[0], t))
+            total = n_it * num(sleeps[0].args[0], t)
+            if total < t * 0.99:
+                res.fail(k, f"with timeout={t} the waiter polls {n_it} times and sleeps {ast.unparse(sleeps[0].args[0])} s each: it gives up after {total:g} s, "
+                         "before the requested timeout - a second request raises TimeoutError while the first is still compiling within its budget", m.line(sleeps[0]))
+                break
     # when the marker never appears the function must end in an explicit raise
     k = f"{gcm.key}:timeout-raises"
     res.ob(k)
